@@ -15,8 +15,15 @@ package playback
 // and (b) fixes the duration of the last real sample. It appends two sentinel units to track 0: the first sits at
 // the planned end of the last real sample and carries an NTP one hour off; when the second one arrives the recorder
 // examines the first, detects NTP drift (> 5 s) and closes the recording through its normal error path
-// (segment closed, mvhd duration written). The builder waits for that log line before calling Close().
-// The sentinels are never written to disk.
+// (segment closed, mvhd duration written). The sentinels are never written to disk.
+//
+// The builder does NOT read the recorder's log to learn that this happened (the wording and the level of log lines are
+// not part of any property statement): it waits until every segment reported by OnSegmentCreate was also reported by
+// OnSegmentComplete AND the tag of the last real unit of track 0 is found in a segment file. Since the reader is a
+// FIFO, that state is reached only after every real unit was consumed, the last track-0 unit got its duration (the
+// first sentinel arrived) and the open segment was closed. Warn/Error lines of recorder and stream are only kept for
+// the evidence notes (rbBuilt.Log). A builder that cannot reach that state is a harness problem, never a property
+// violation: callers end with VERIF-INCONCLUSIVE (rbInconclusive).
 //
 // The file also contains an independent fMP4 box walker (rbWalk) written against ISO/IEC 14496-12, used by the
 // oracles to learn what the recorder put on disk (box boundaries, parts, per-sample sizes/durations/flags).
@@ -27,6 +34,8 @@ import (
 	"encoding/json"
 	"errors"
 	"fmt"
+	"io"
+	"net"
 	"net/http"
 	"net/http/httptest"
 	"net/url"
@@ -190,6 +199,7 @@ type rbBuilt struct {
 	RecordPath string
 	Spec       *rbSpec
 	Sessions   []rbBuiltSession
+	Log        []string // distinct Warn/Error lines of recorder and stream (informative only, see rbNoteLog)
 }
 
 // PathConfs returns the path configuration a playback server needs to serve the recording.
@@ -203,36 +213,72 @@ func (b *rbBuilt) PathConfs() map[string]*conf.Path {
 	}
 }
 
+// rbLogger receives the log lines of recorder and stream. Nothing in it depends on the TEXT of a line: Warn/Error
+// lines are kept for the evidence notes, an Error-level line only shortens the wait (see rbRecordSession), and every
+// line wakes the waiting builder up.
 type rbLogger struct {
 	mu       sync.Mutex
-	drift    chan struct{}
-	once     sync.Once
-	failed   chan struct{}
-	failOnce sync.Once
-	problem  []string
+	kick     chan struct{} // capacity 1
+	lines    []string      // Warn and Error lines
+	sawError bool
+}
+
+func (l *rbLogger) wake() {
+	select {
+	case l.kick <- struct{}{}:
+	default:
+	}
 }
 
 func (l *rbLogger) Log(level logger.Level, format string, args ...any) {
-	msg := fmt.Sprintf(format, args...)
-	if strings.Contains(msg, "detected drift between recording duration and absolute time") {
-		l.once.Do(func() { close(l.drift) })
-		return
-	}
-	if strings.Contains(msg, "received too late, discarding") {
-		return // legitimate: a track whose first samples precede the start of the first segment
-	}
 	if level == logger.Warn || level == logger.Error {
+		msg := fmt.Sprintf(format, args...)
 		l.mu.Lock()
-		l.problem = append(l.problem, msg)
-		l.mu.Unlock()
-		if level == logger.Error {
-			// the recorder instance gave up for another reason: the sentinels will never be examined
-			l.failOnce.Do(func() { close(l.failed) })
+		if len(l.lines) < 32 {
+			l.lines = append(l.lines, fmt.Sprintf("%v: %s", rbLevelName(level), msg))
 		}
+		if level == logger.Error {
+			l.sawError = true
+		}
+		l.mu.Unlock()
+	}
+	l.wake()
+}
+
+func rbLevelName(level logger.Level) string {
+	if level == logger.Error {
+		return "error"
+	}
+	return "warn"
+}
+
+// errRBBuilder marks every failure of the builder itself (as opposed to a wrong answer of the code under test).
+var errRBBuilder = errors.New("recording builder")
+
+// rbTB is what *testing.T, *testing.F and *rapid.T have in common.
+type rbTB interface {
+	Fatalf(format string, args ...any)
+}
+
+// rbInconclusive ends the test with the marker the driver maps to exit 2 (inconclusive, never a violation).
+func rbInconclusive(t rbTB, format string, args ...any) {
+	msg := fmt.Sprintf(format, args...)
+	first := msg
+	if i := strings.IndexByte(first, '\n'); i >= 0 {
+		first = first[:i]
+	}
+	fmt.Println("VERIF-INCONCLUSIVE: " + first) // also on stdout: rapid may re-run/shrink before printing the message
+	t.Fatalf("VERIF-INCONCLUSIVE: %s", msg)
+}
+
+// rbNoteLog copies the Warn/Error lines seen while building to the evidence notes (deduplicated by the kit).
+func rbNoteLog(note func(string), b *rbBuilt) {
+	for _, l := range b.Log {
+		note("recorder/stream log while building (informative): " + l)
 	}
 }
 
-var errRBTimeout = errors.New("recording builder: timed out waiting for the recorder")
+var errRBTimeout = fmt.Errorf("%w: timed out waiting for the recorder", errRBBuilder)
 
 func rbVideoPayload(spec *rbSpec, sync bool, size int, tag [8]byte) unit.Payload {
 	body := append(rbFiller(size, tag[6]), tag[:]...)
@@ -272,10 +318,20 @@ func rbBuild(dir string, spec *rbSpec) (*rbBuilt, error) {
 		Spec:       spec,
 	}
 
+	seen := map[string]bool{}
 	for si := range spec.Sessions {
-		bs, err := rbRecordSession(out, si)
+		bs, lines, err := rbRecordSession(out, si)
+		for _, l := range lines {
+			if !seen[l] {
+				seen[l] = true
+				out.Log = append(out.Log, l)
+			}
+		}
 		if err != nil {
-			return nil, fmt.Errorf("session %d: %w", si, err)
+			if !errors.Is(err, errRBBuilder) {
+				err = fmt.Errorf("%w: %v", errRBBuilder, err)
+			}
+			return nil, fmt.Errorf("session %d: %w (recorder/stream log: %q)", si, err, out.Log)
 		}
 		out.Sessions = append(out.Sessions, *bs)
 	}
@@ -284,22 +340,28 @@ func rbBuild(dir string, spec *rbSpec) (*rbBuilt, error) {
 	// order of the traf boxes is random from run to run. To keep cases reproducible the builder fixes the order
 	// per part from spec.OrderBits by swapping the two traf boxes (and their sample data) where needed: every
 	// order is a legal output of the recorder, and both are explored.
+	// A file the walker cannot read, or whose parts are laid out differently, is left as it is: whether the file
+	// is acceptable is judged by rbLoadDisk / the oracles, not here.
 	if spec.nTracks() == 2 {
 		for si := range out.Sessions {
 			for gi, p := range out.Sessions[si].Segments {
 				data, info, err := rbReadSegment(p)
 				if err != nil {
-					return nil, fmt.Errorf("session %d segment %d: walker: %w", si, gi, err)
+					continue
 				}
 				nd, changed, err := rbReorderTrafs(data, info, func(part int) bool {
 					return (spec.OrderBits>>uint((si*11+gi*5+part)%64))&1 == 1
 				})
 				if err != nil {
-					return nil, fmt.Errorf("session %d segment %d: reorder: %w", si, gi, err)
+					if l := fmt.Sprintf("builder: traf order of session %d segment %d left as written: %v", si, gi, err); !seen[l] {
+						seen[l] = true
+						out.Log = append(out.Log, l)
+					}
+					continue
 				}
 				if changed {
 					if err := os.WriteFile(p, nd, 0o644); err != nil {
-						return nil, err
+						return nil, fmt.Errorf("%w: %v", errRBBuilder, err)
 					}
 				}
 			}
@@ -351,7 +413,7 @@ func rbReorderTrafs(data []byte, info *rbSegInfo, audioFirst func(part int) bool
 	return out, changed, nil
 }
 
-func rbRecordSession(out *rbBuilt, si int) (*rbBuiltSession, error) {
+func rbRecordSession(out *rbBuilt, si int) (*rbBuiltSession, []string, error) {
 	spec := out.Spec
 	sess := &spec.Sessions[si]
 
@@ -377,7 +439,7 @@ func rbRecordSession(out *rbBuilt, si int) (*rbBuiltSession, error) {
 		}}})
 	}
 	if len(medias) == 0 {
-		return nil, fmt.Errorf("no tracks")
+		return nil, nil, fmt.Errorf("no tracks")
 	}
 	desc.Medias = medias
 
@@ -386,7 +448,7 @@ func rbRecordSession(out *rbBuilt, si int) (*rbBuiltSession, error) {
 		queue *= 2
 	}
 
-	lg := &rbLogger{drift: make(chan struct{}), failed: make(chan struct{})}
+	lg := &rbLogger{kick: make(chan struct{}, 1)}
 
 	strm := &stream.Stream{
 		OrigDesc:          desc,
@@ -396,13 +458,13 @@ func rbRecordSession(out *rbBuilt, si int) (*rbBuiltSession, error) {
 		Parent:            lg,
 	}
 	if err := strm.Initialize(); err != nil {
-		return nil, err
+		return nil, nil, err
 	}
 	defer strm.Close()
 
 	sub := &stream.SubStream{Stream: strm, UseRTPPackets: false}
 	if err := sub.Initialize(); err != nil {
-		return nil, err
+		return nil, nil, err
 	}
 
 	bs := &rbBuiltSession{}
@@ -420,11 +482,13 @@ func rbRecordSession(out *rbBuilt, si int) (*rbBuiltSession, error) {
 			cbMu.Lock()
 			bs.Segments = append(bs.Segments, p)
 			cbMu.Unlock()
+			lg.wake()
 		},
 		OnSegmentComplete: func(_ string, d time.Duration) {
 			cbMu.Lock()
 			bs.Completed = append(bs.Completed, d)
 			cbMu.Unlock()
+			lg.wake()
 		},
 		Parent: lg,
 	}
@@ -439,11 +503,16 @@ func rbRecordSession(out *rbBuilt, si int) (*rbBuiltSession, error) {
 	}
 
 	counts := [2]int{}
+	var lastTag0 [8]byte // tag of the last real unit of track 0
+	hasTag0 := false
 	for i := range sess.Units {
 		u := &sess.Units[i]
 		u.Idx = counts[u.Track]
 		counts[u.Track]++
 		tag := rbTag(si, u.Track, u.Idx)
+		if u.Track == 0 {
+			lastTag0, hasTag0 = tag, true
+		}
 		t := sess.Start.Add(rbTicksToDur(u.Ticks, spec.clock(u.Track)))
 		sync := u.Sync
 		var pl unit.Payload
@@ -473,32 +542,73 @@ func rbRecordSession(out *rbBuilt, si int) (*rbBuiltSession, error) {
 	write(0, sess.EndTicks, endT.Add(time.Hour), s1)
 	write(0, sess.EndTicks+spec.clock(0)/50, endT.Add(time.Hour), s2)
 
+	// End of the session, observed through the callbacks and the files only (see the file comment): every created
+	// segment completed and the last real unit of track 0 on disk.
+	reached := func() bool {
+		cbMu.Lock()
+		nc, nd := len(bs.Segments), len(bs.Completed)
+		var last []string
+		for i := nc - 1; i >= 0 && i >= nc-2; i-- {
+			last = append(last, bs.Segments[i])
+		}
+		cbMu.Unlock()
+		if nc == 0 || nc != nd || !hasTag0 {
+			return false
+		}
+		for _, p := range last {
+			if data, err := os.ReadFile(p); err == nil && bytes.Contains(data, lastTag0[:]) {
+				return true
+			}
+		}
+		return false
+	}
+
 	var err error
-	select {
-	case <-lg.drift:
-	case <-lg.failed:
-	case <-time.After(90 * time.Second):
-		buf := make([]byte, 1<<20)
-		buf = buf[:runtime.Stack(buf, true)]
-		err = fmt.Errorf("%w (%d units, video=%q audio=%q)\n%s", errRBTimeout, len(sess.Units), spec.Video, spec.Audio, buf)
+	deadline := time.NewTimer(90 * time.Second)
+	defer deadline.Stop()
+	tick := time.NewTicker(5 * time.Millisecond)
+	defer tick.Stop()
+	var errorSince time.Time
+wait:
+	for !reached() {
+		// an Error-level line (whatever it says) means that the recorder instance gave up: when the end state does
+		// not follow shortly, it never will (the instance is restarted without the queued units)
+		lg.mu.Lock()
+		sawError := lg.sawError
+		lg.mu.Unlock()
+		if sawError {
+			if errorSince.IsZero() {
+				errorSince = time.Now()
+			} else if time.Since(errorSince) > 15*time.Second {
+				err = fmt.Errorf("%w: the recorder reported an error and the recording never reached its end state "+
+					"(all segments completed, last unit of track 0 on disk)", errRBBuilder)
+				break wait
+			}
+		}
+		select {
+		case <-lg.kick:
+		case <-tick.C:
+		case <-deadline.C:
+			buf := make([]byte, 1<<20)
+			buf = buf[:runtime.Stack(buf, true)]
+			err = fmt.Errorf("%w (%d units, video=%q audio=%q)\n%s", errRBTimeout, len(sess.Units), spec.Video, spec.Audio, buf)
+			break wait
+		}
 	}
 	rec.Close()
 
-	if err != nil {
-		return nil, err
-	}
 	lg.mu.Lock()
-	problems := append([]string(nil), lg.problem...)
+	lines := append([]string(nil), lg.lines...)
 	lg.mu.Unlock()
-	if len(problems) != 0 {
-		return nil, fmt.Errorf("recorder/stream complained: %q", problems)
+	if err != nil {
+		return nil, lines, err
 	}
 	cbMu.Lock()
 	defer cbMu.Unlock()
 	if len(bs.Completed) != len(bs.Segments) {
-		return nil, fmt.Errorf("%d segments created, %d completed", len(bs.Segments), len(bs.Completed))
+		return nil, lines, fmt.Errorf("%w: %d segments created, %d completed", errRBBuilder, len(bs.Segments), len(bs.Completed))
 	}
-	return bs, nil
+	return bs, lines, nil
 }
 
 // ---------------------------------------------------------------------------------------------------------------
@@ -1083,16 +1193,36 @@ func rbReadSegment(p string) ([]byte, *rbSegInfo, error) {
 // ---------------------------------------------------------------------------------------------------------------
 // calling the real handlers
 
-func rbNewServer(pathConfs map[string]*conf.Path) *Server {
-	return &Server{
-		PathConfs:   pathConfs,
-		AuthManager: test.NilAuthManager,
-		Parent:      test.NilLogger,
+// rbNewServerAt returns a playback server created the way core creates it: exported fields filled in, then
+// Initialize() (listener on the given loopback address; ":0" = kernel-assigned port). The caller must Close() it.
+func rbNewServerAt(address string, pathConfs map[string]*conf.Path) (*Server, error) {
+	s := &Server{
+		Address:      address,
+		ReadTimeout:  conf.Duration(10 * time.Second),
+		WriteTimeout: conf.Duration(10 * time.Second),
+		PathConfs:    pathConfs,
+		AuthManager:  test.NilAuthManager,
+		Parent:       test.NilLogger,
 	}
+	if err := s.Initialize(); err != nil {
+		return nil, fmt.Errorf("%w: playback.Server.Initialize() on %s: %v", errRBBuilder, address, err)
+	}
+	return s, nil
 }
 
-// rbCall invokes the real gin handler of endpoint ("list" or "get") directly, i.e. without the
-// exit-on-panic wrapper and without a network listener, and returns status, headers and body.
+// rbNewServer returns an initialized server on a kernel-assigned loopback port; the caller must Close() it.
+func rbNewServer(t rbTB, pathConfs map[string]*conf.Path) *Server {
+	s, err := rbNewServerAt("127.0.0.1:0", pathConfs)
+	if err != nil {
+		rbInconclusive(t, "%v", err)
+	}
+	return s
+}
+
+// rbCall invokes the real gin handler of endpoint ("list" or "get") of an initialized server directly, i.e. without
+// the exit-on-panic wrapper of the HTTP stack (a panic of the handler must stay observable and attributable to its
+// input), and returns status, headers and body. That direct calls behave like requests received over HTTP is an
+// assumption of the harness, verified by rbCalibrate.
 func rbCall(s *Server, endpoint string, q url.Values) (int, http.Header, []byte) {
 	gin.SetMode(gin.ReleaseMode)
 	w := httptest.NewRecorder()
@@ -1108,6 +1238,123 @@ func rbCall(s *Server, endpoint string, q url.Values) (int, http.Header, []byte)
 	}
 	ctx.Writer.WriteHeaderNow()
 	return w.Code, w.Header(), w.Body.Bytes()
+}
+
+// ---------------------------------------------------------------------------------------------------------------
+// calibration of the harness's own channels (never a verdict about a property)
+
+var (
+	rbCalOnce sync.Once
+	rbCalErr  error
+)
+
+// rbCalibrate must be called at the start of every test function that uses the builder or rbCall. It records a
+// trivial one-segment recording (video only, 300 ms) and
+//   - checks that the builder works (end state reached, a segment file holding tagged samples exists);
+//   - starts a server on a free loopback port, asks /list and /get over REAL HTTP and through rbCall, and compares:
+//     a different status (or a different /get body) means that handlers called directly no longer see what
+//     a request sees (state set up elsewhere, middleware, ...).
+//
+// Either failure says something about the harness, not about the property: VERIF-INCONCLUSIVE.
+// What the real HTTP interface answers is NOT judged here (that is the job of the oracles).
+func rbCalibrate(t rbTB) {
+	rbCalOnce.Do(func() { rbCalErr = rbCalibrateOnce() })
+	if rbCalErr != nil {
+		rbInconclusive(t, "calibration: %v", rbCalErr)
+	}
+}
+
+func rbFreeLoopbackAddr() (string, error) {
+	ln, err := net.Listen("tcp", "127.0.0.1:0")
+	if err != nil {
+		return "", err
+	}
+	defer ln.Close()
+	return ln.Addr().String(), nil
+}
+
+func rbCalibrateOnce() error {
+	dir, err := os.MkdirTemp(os.Getenv("VERIF_WORKDIR"), "rbcal-")
+	if err != nil {
+		return err
+	}
+	defer os.RemoveAll(dir)
+
+	spec := &rbSpec{
+		Video: "av1", PartDur: 100 * time.Millisecond, SegDur: 10 * time.Second,
+		Sessions: []rbSession{rbFixedSession(time.Date(2024, 3, 5, 9, 0, 0, 0, time.UTC), 50, 3, 0, 0, 300)},
+	}
+	built, err := rbBuild(dir, spec)
+	if err != nil {
+		return fmt.Errorf("the builder cannot make a trivial recording: %v", err)
+	}
+	if len(built.Sessions) != 1 || len(built.Sessions[0].Segments) != 1 {
+		return fmt.Errorf("the builder made %d sessions / %v segments out of 300 ms of video, expected one segment",
+			len(built.Sessions), built.Sessions)
+	}
+	data, err := os.ReadFile(built.Sessions[0].Segments[0])
+	if err != nil {
+		return fmt.Errorf("the builder's segment cannot be read: %v", err)
+	}
+	for _, f := range built.Sessions[0].Fed[0] {
+		if !bytes.Contains(data, f.Tag[:]) {
+			return fmt.Errorf("unit %d fed to the recorder is not in the segment file: the builder's end-of-session "+
+				"barrier does not work any more", f.Idx)
+		}
+	}
+	start, err := rbSegStartFromName(built.Sessions[0].Segments[0])
+	if err != nil {
+		return fmt.Errorf("segment file name not understood: %v", err)
+	}
+
+	var srv *Server
+	var addr string
+	for attempt := 0; ; attempt++ {
+		addr, err = rbFreeLoopbackAddr()
+		if err == nil {
+			srv, err = rbNewServerAt(addr, built.PathConfs())
+		}
+		if err == nil {
+			break
+		}
+		if attempt == 4 {
+			return fmt.Errorf("cannot start a playback server on a loopback port: %v", err)
+		}
+	}
+	defer srv.Close()
+
+	queries := []struct {
+		endpoint string
+		q        url.Values
+	}{
+		{"list", url.Values{"path": {rbPathName}}},
+		{"get", url.Values{"path": {rbPathName}, "start": {start.Format(time.RFC3339Nano)}, "duration": {"1h"}, "format": {"fmp4"}}},
+		{"get", url.Values{"path": {rbPathName}, "start": {start.Format(time.RFC3339Nano)}, "duration": {"1h"}, "format": {"mp4"}}},
+		{"list", url.Values{"path": {"rbcal/unconfigured"}}},
+	}
+	cl := &http.Client{Timeout: 30 * time.Second}
+	defer cl.CloseIdleConnections()
+	for _, qu := range queries {
+		res, err := cl.Get("http://" + addr + "/" + qu.endpoint + "?" + qu.q.Encode())
+		if err != nil {
+			return fmt.Errorf("real HTTP request /%s failed: %v", qu.endpoint, err)
+		}
+		hBody, err := io.ReadAll(res.Body)
+		res.Body.Close()
+		if err != nil {
+			return fmt.Errorf("real HTTP request /%s: reading the body failed: %v", qu.endpoint, err)
+		}
+		dCode, _, dBody := rbCall(srv, qu.endpoint, qu.q)
+		if dCode != res.StatusCode {
+			return fmt.Errorf("/%s?%s answers %d over HTTP but %d (%.120q) when the handler is called directly: "+
+				"the handlers cannot be driven without the HTTP stack any more", qu.endpoint, qu.q.Encode(), res.StatusCode, dCode, dBody)
+		}
+		if qu.endpoint == "get" && !bytes.Equal(hBody, dBody) {
+			return fmt.Errorf("/get?%s returns %d bytes over HTTP and %d different bytes when the handler is called directly",
+				qu.q.Encode(), len(hBody), len(dBody))
+		}
+	}
+	return nil
 }
 
 // ---------------------------------------------------------------------------------------------------------------
